@@ -56,26 +56,27 @@ META["C02"] = dict(
          "top of C01's): C02_store_refines_map (every legal configuration, every sequence of Put/Get/Has/GetSize/Remove/Flush/iteration/"
          "Close+reopen with or without the snapshot returns what the map returns: every reopen succeeds and preserves the contents), "
          "C02_snapshot_eq_rescan (both open paths load the same non-zero bucket table and the same record lists), "
-         "C02_reopen_preserves_observations, C02_reopen_twice, C02_store_refines_map_igc (the same with index GC cycles among the calls). "
-         "Partial with respect to the statement: histories containing PRIMARY GC cycles before the reopen are covered by the "
-         "correspondence and the oracle (c02 profile mixes GC cycles in), not yet by the theorem.",
+         "C02_reopen_preserves_observations, C02_reopen_twice, C02_store_refines_map_gc (= C04_store_refines_map: the same with index GC "
+         "and primary GC cycles among the calls, under the file-counter premise GcCountersOK), which is the statement at full strength: "
+         "no matter how many flushes, rollovers or GC cycles preceded the reopen.",
     note=SEQ_NOTE,
 )
 META["C04"] = dict(
     engine="lean+harness(seq)",
     design_ref="DESIGN.md section 5, C04",
-    technique="Lean 4 proof (index GC cycles stutter in whole histories; a primary GC cycle stutters on every state satisfying the GC invariant) over the byte-level model of both collectors + correspondence (poll budgets as trace inputs) + map-specification oracle with GC erased",
+    technique="Lean 4 proof (the physical store with index GC and primary GC cycles - complete or cut at any poll - and reopens at arbitrary positions refines the map) over the byte-level model of both collectors + correspondence (poll budgets as trace inputs) + map-specification oracle with GC erased",
     text="Model of Index.gc/truncateFreeFiles/reapIndexRecords and primaryGC.gc/processFreeList/deleteRecords/reapRecords incl. relocation "
          "and time-limit resume, compared byte-for-byte with the real collectors at arbitrary positions of C01 histories; after every "
-         "cycle every key is read back against the map specification. PROVED (Sth/Props/C04.lean, ~8000 lines of lemmas): "
-         "C04_store_refines_map_partial_igc (every history of Put/Get/Has/GetSize/Remove/Flush/iteration/Close+reopen WITH index GC "
-         "cycles - complete or cut at any poll, with or without the free-file scan - at arbitrary positions returns what the map "
-         "returns), C04_indexGC_stutters (a cycle changes only the resume point in memory, leaves every record list, every primary read, "
-         "the primary files and the freelist untouched), C04_reopen_after_igc (snapshot and rescan still load the same table after "
-         "marking/merging/truncating/unlinking), C04_primaryGC_stutters (a primary GC cycle - hand-over x2, apply, merge, truncate, "
-         "unlink, relocation, deadline at any poll - stutters on every multihash state satisfying the GC invariant GInv, which put / "
-         "remove / reads / flush / index GC / reopen preserve). Open: threading GInv through whole histories WITH primary GC cycles "
-         "(the full C04_store_refines_map, kept as a comment in the file) - in progress.",
+         "cycle every key is read back against the map specification. PROVED (Sth/Props/C04.lean, ~7600 lines of lemmas): "
+         "C04_store_refines_map - NO restriction on the operations: for every legal configuration, every history of Put/Get/Has/GetSize/"
+         "Remove/Flush/iteration/Close+reopen with index GC cycles (with or without the free-file scan) and primary GC cycles (hand-over "
+         "x2, apply, merge, truncate, unlink, relocation with conditional re-pointing) at arbitrary positions, each complete or cut at "
+         "ANY poll by the deadline, every call returns what the map returns. One explicit decidable premise beyond C01's: "
+         "GcCountersOK (file numbers stay below 2^28 along the run; C04_store_refines_map_budget gives a sufficient bound on the calls "
+         "alone) - relocation re-appends records, so the uint32 file counter is no longer bounded by the number of calls; without it "
+         "the file number can wrap (a limit of the store, documented, not exercised). Unconditional for the CID primary "
+         "(C04_store_refines_map_cid). Also: C04_indexGC_stutters, C04_reopen_after_igc, C04_primaryGC_stutters(_reachable) (no live "
+         "record is ever marked deleted, truncated or lost in relocation), C04_gc_cycles_invisible, C04_gc_idempotent_on_contents.",
     note=SEQ_NOTE,
 )
 META["C15"] = dict(
